@@ -958,7 +958,7 @@ def pysum(B, xs):
     return acc
 def pydot(B, tab, xs):
     acc = tab[0] * xs[0]
-    for a, x in zip(tab[1:], xs[1:]): acc = acc + a * x
+    for a, x in zip(tab[1:], xs[1:]): acc = B.fma(a, x, acc)
     return acc
 def power_array(B, value, comb):
     ppowers = [c[0] for c in comb if c[0] > 0]
@@ -977,6 +977,7 @@ def power_array(B, value, comb):
 
 class FloatBackend:
     inf = math.inf
+    fma = staticmethod(lambda a, b, c: float(Fraction(a) * Fraction(b) + Fraction(c)) if all(map(math.isfinite, (a, b, c))) else a * b + c)
     L = staticmethod(float)
     I = staticmethod(float)
     sqrt = staticmethod(math.sqrt)
@@ -995,6 +996,7 @@ class DecimalBackend:
     def sqrt(self, x): return x.sqrt()
     def exp(self, x): return x.exp()
     def pow(self, a, b): return a ** b
+    def fma(self, a, b, c): return a * b + c
 
 
 class Compiled:
